@@ -198,6 +198,15 @@ Definition in_dom (o : sop) (l : list Z) : bool :=
   | _ => true
   end.
 
+(* operations whose C expression traps (SIGFPE on x86-64) outside the domain: the
+   folder must not evaluate them at compile time there, the call may sit in code
+   that is never executed *)
+Definition may_fault (o : sop) : bool :=
+  match o with
+  | SIntMod | SIntQuo | SIntRem | SIntPlusMod | SIntMinusMod | SIntTimesMod | SIntTimesModInv => true
+  | _ => false
+  end.
+
 (* ------------------------------------------------------------------------ *)
 (* classes for `coverage_complete` *)
 Local Open Scope string_scope.
